@@ -242,7 +242,14 @@ def run(prog, rep):
     okz = not bad and len(allocs) == 1 and allocs[0].get("callee") == "p_malloc0"
     rep.ob("C05.3", px, "proxy:code", okz, "a thread function that simply returns leaves ret_code at its zero initialisation (p_malloc0)" if okz else
            "the proxy writes ret_code or the handle is not zero-initialised", px.loc[0])
-    rep.floor("C05.3", 4)
+    st_ours = [n for (b, i, f, n) in stores_in(cf) if f == "ours"]
+    oko = len(st_ours) == 1 and cv(st_ours[0]["r"]) == 1
+    rep.ob("C05.3", cf, "ours", oko, "created handles are marked as library threads (p_uthread_exit stores its code only for those)" if oko else
+           "p_uthread_create_full does not mark the handle as a library thread: p_uthread_exit refuses to store the exit code, join then yields 0", cf.loc[0])
+    st_join = [n for (b, i, f, n) in stores_in(cf) if f == "joinable"]
+    okjn = len(st_join) == 1 and root_var(st_join[0]["r"]) == cf.param_names()[2]
+    rep.ob("C05.3", cf, "joinable", okjn, "the handle records the joinable argument" if okjn else "the joinable flag of the handle is not the caller's argument", cf.loc[0])
+    rep.floor("C05.3", 6)
 
     # ---- C05.4 ---------------------------------------------------------------------
     indirect = {}
@@ -400,6 +407,8 @@ SELFTEST = [
          old="\tif (base_thread->joinable == FALSE)\n\t\treturn -1;\n\n\tp_uthread_wait_internal (thread);", new="\tp_uthread_wait_internal (thread);"),
     dict(id="exit-code-after-native-exit", file="src/puthread.c", expect="C05.3",
          old="\tbase_thread->ret_code = code;\n\n\tp_uthread_exit_internal ();", new="\tp_uthread_exit_internal ();\n\n\tbase_thread->ret_code = code;"),
+    dict(id="ours-not-set", file="src/puthread.c", expect="C05.3",
+         old="\t\tbase_thread->ours      = TRUE;\n", new=""),
     dict(id="set-local-destroys", file="src/puthread-posix.c", expect="C05.4",
          old="\tif (P_LIKELY (tls_key != NULL)) {\n\t\tif (P_UNLIKELY (pthread_setspecific (*tls_key, value) != 0))",
          new="\tif (P_LIKELY (tls_key != NULL)) {\n\t\tif (key->free_func != NULL && pthread_getspecific (*tls_key) != NULL)\n\t\t\tkey->free_func (pthread_getspecific (*tls_key));\n\t\tif (P_UNLIKELY (pthread_setspecific (*tls_key, value) != 0))"),
